@@ -28,23 +28,23 @@ mod verif_interp {
         vassert!(run.returned, concat!("C06.executes@", $t));
         let g = &run.regs;
         let (af, bc, de, hl, sp, ip, cyc) = (g.af, g.bc, g.de, g.hl, g.sp, g.ip, g.cycles);
-        vassert!(af >> 8 == o.r.a as u32, concat!("C05.a@", $t));
-        vassert!(af & 0xff == o.r.f as u32, concat!("C05.f@", $t));
-        vassert!(bc == (((o.r.b as u32) << 8) | o.r.c as u32), concat!("C05.bc@", $t));
-        vassert!(de == (((o.r.d as u32) << 8) | o.r.e as u32), concat!("C05.de@", $t));
-        vassert!(hl == (((o.r.h as u32) << 8) | o.r.l as u32), concat!("C05.hl@", $t));
-        if is_stack_op($op) {
-          vassert!(sp == o.r.sp as u32, concat!("C06.sp@", $t));
-          vassert!(run.bus_ok, concat!("C06.stack_bus@", $t));
-        } else {
-          vassert!(sp == o.r.sp as u32, concat!("C05.sp@", $t));
-          vassert!(run.bus_ok, concat!("C05.bus@", $t));
-        }
-        vassert!(ip == o.r.pc as u32, concat!("C06.pc@", $t));
-        vassert!(cyc == c0 + o.cycles, concat!("C06.cycles@", $t));
-        vassert!(run.brk == o.block_end, concat!("C06.block_end@", $t));
+        let stack = is_stack_op($op);
         let st = match run.status { 1 => sm83ref::ST_STOP, 2 => sm83ref::ST_HALT, 3 => sm83ref::ST_DI, 4 => sm83ref::ST_EI, 5 => sm83ref::ST_RETI, _ => sm83ref::ST_NORMAL };
-        vassert!(st == o.status, concat!("C06.status@", $t));
+        crate::vchecks!(
+          (af >> 8 == o.r.a as u32, concat!("C05.a@", $t)),
+          (af & 0xff == o.r.f as u32, concat!("C05.f@", $t)),
+          (bc == (((o.r.b as u32) << 8) | o.r.c as u32), concat!("C05.bc@", $t)),
+          (de == (((o.r.d as u32) << 8) | o.r.e as u32), concat!("C05.de@", $t)),
+          (hl == (((o.r.h as u32) << 8) | o.r.l as u32), concat!("C05.hl@", $t)),
+          (stack || sp == o.r.sp as u32, concat!("C05.sp@", $t)),
+          (stack || run.bus_ok, concat!("C05.bus@", $t)),
+          (!stack || sp == o.r.sp as u32, concat!("C06.sp@", $t)),
+          (!stack || run.bus_ok, concat!("C06.stack_bus@", $t)),
+          (ip == o.r.pc as u32, concat!("C06.pc@", $t)),
+          (cyc == c0 + o.cycles, concat!("C06.cycles@", $t)),
+          (run.brk == o.block_end, concat!("C06.block_end@", $t)),
+          (st == o.status, concat!("C06.status@", $t)),
+        );
       }
     }};
   }
